@@ -122,7 +122,8 @@ CLAIMED = {
          'Python\'s own precedence regrouping of that text, the runtime operators) against an independent Excel-side reader (precedence climbing: '
          '% > sign > * / > + - > & > comparisons, left-associative) and evaluator: kernel-exhaustive — for ALL 1 111 110 token sequences of length '
          '<= 6 over {atom + - * / & < % ( )} every sequence Excel reads as a formula is grouped as Excel groups it, or lies in one of three '
-         'listed defect classes of the emitter, or is one of the two rejected percent forms; unbounded — a blank behaves as the integer 0 under '
+         'listed defect classes of the emitter, or is one of the two rejected percent forms; unbounded — for every tree over operands, brackets and '
+         'binary + - * / of any size and depth the emitted text read as a flat token string is the formula\'s token string (structural induction); a blank behaves as the integer 0 under '
          '+ - * / and sign against every value, the operators on doubles are the same IEEE operation as Excel\'s for all doubles, a literal with a '
          'fraction or negative exponent is the correctly rounded double of its decimal text for every digit string (after fix 5e1cf08); grids for '
          'integer arithmetic and integer literals; kernel-computed witnesses for every known finding. Correspondence: for every case the emitted '
